@@ -5,6 +5,7 @@ import SeqVerif.Model.ActiveReach
 import SeqVerif.Model.RangeGo
 import SeqVerif.Model.EvalTreeWith
 import SeqVerif.Model.InverserArray
+import SeqVerif.Proofs.C03Posting
 import SeqVerif.Extracted.C02
 /-!
 # C02 - search returns exactly the matching documents, ordered, limited and counted
@@ -273,6 +274,25 @@ example :
       if b = [50] then some 4 else none
     Leaf.valMatchWith num (.range [110] (some [49]) true (some [50]) true) [49, 46, 53] = true ∧
       Leaf.valMatch (.range [110] (some [49]) true (some [50]) true) [49, 46, 53] = false := by decide
+
+/-! ## sealed posting lists (LID blocks) -/
+
+/-- **The sealed fraction's LID-block iterators deliver C02's posting-list view for every block layout.**
+`SV.C03.genBlocks cap` is C03's model of the sealer's LID block generator (`MinTID = lastMaxTID + 1` also for continued
+blocks, `IsContinued`, chunks of at most `cap` LIDs), `iterDesc` / `iterAsc` its models of `lids.IteratorDesc` /
+`IteratorAsc` (`GetFirst/LastBlockIndexForTID`, `HasTIDInNextBlock` / `HasTIDInPrevBlock`, `narrowLIDsRange`).  For every
+capacity and every token - spanning any number of blocks, blocks lying wholly inside the token included - they yield
+`EvalTree.narrow`: the token's posting list cut to the borders, in iteration order.  (Imported read-only from
+Proofs/C03Posting.lean; the whole-fraction form is `SV.C03.sealedNode_eq_narrow` in Proofs/C03C02.lean.) -/
+theorem c02_sealed_posting_is_narrow (cap : Nat) (f : Nat → Nat) (fields : List (List (List Nat))) (tid minL maxL : Nat)
+    (h : SV.C03.PostingInput cap f fields tid) :
+    SV.C03.iterDesc (SV.C03.genBlocks cap f fields) (SV.C03.tableOf (SV.C03.genBlocks cap f fields)) tid minL maxL =
+        .ok (narrow false minL maxL (((fields.flatten[tid - 1]?).getD []).map f)) ∧
+    SV.C03.iterAsc (SV.C03.genBlocks cap f fields) (SV.C03.tableOf (SV.C03.genBlocks cap f fields)) tid minL maxL =
+        .ok (narrow true minL maxL (((fields.flatten[tid - 1]?).getD []).map f)) := by
+  rw [SV.C03.lidsBlocks_iterDesc_eq_filter cap f fields tid minL maxL h,
+    SV.C03.lidsBlocks_iterAsc_eq_filter cap f fields tid minL maxL h]
+  exact ⟨rfl, rfl⟩
 
 /-! ## the inverser's pooled table -/
 
